@@ -53,7 +53,7 @@ ASSUMPTIONS = [
 ]
 BOUND = {
     "quick": "root of 2 items (ragged keys, one nested mutable object value); families of <= 4 lists; all event sequences "
-             "to depth 4; per member 9 simple derives + sample(1|2) x every RNG answer + semi/anti join x every "
+             "to depth 4; per member 12 simple derives + map (identity / rebuilding callback; its relation to the receiver is observed) + sample(1|2) x every RNG answer + semi/anti join x every "
              "other member and a literal as right-hand list; 9 edits + inner/left join x the same right-hand "
              "lists; deepcopy; 2 kinds of use",
     "thorough": "same event alphabet; families of <= 5 lists; all event sequences to depth 6",
@@ -151,6 +151,11 @@ CALL = {
     "chain_slice_reverse": lambda x, r, ev: x[0:].reverse(),
     "semi_join": lambda x, r, ev: x.semi_join(r, "k"),
     "anti_join": lambda x, r, ev: x.anti_join(r, "k"),
+    # map is not named by the statement: whether its result holds the receiver's item objects is OBSERVED (object
+    # identity) - if it does, the receiver is "a list from which it was obtained through a method that hands on the
+    # same item objects" and the discipline applies; if it does not, the result is an unrelated new list
+    "map_identity": lambda x, r, ev: x.map(lambda it: it),
+    "map_tag": lambda x, r, ev: x.map(lambda it: {**it, "t": 1}),
     # in-place (statement: modify, modify_if, rename, select, unselect, fill_missing_keys, inner_join, left_join)
     "modify": lambda x, r, ev: x.modify(a=lambda it: 5),
     "modify_if": lambda x, r, ev: x.modify_if(lambda it: it["k"] == 1, a=lambda it: 6),
@@ -171,6 +176,7 @@ CALL = {
 SIMPLE_D = ("filter_fn", "filter_kv", "sort", "unique", "head", "head0", "tail", "slice", "copy", "reverse",
             "chain_filter_sort", "chain_slice_reverse")
 SIMPLE_E = ("modify", "modify_if", "modify_if_nested", "rename", "select", "unselect", "fill", "fill_kv")
+MAPS = ("map_identity", "map_tag")
 USES = ("pluck", "to_string")
 # which method of the statement each op instantiates (for the reference model and reports)
 METHOD = {"filter_fn": "filter", "filter_kv": "filter", "modify_if_nested": "modify_if",
@@ -188,6 +194,7 @@ SOURCE = {
     "copy": "{x}.copy()", "reverse": "{x}.reverse()",
     "chain_filter_sort": "{x}.filter(lambda it: True).sort(k=-1)", "chain_slice_reverse": "{x}[0:].reverse()", "sample": "{x}.sample({n})  # random.sample answers {answer}",
     "semi_join": "{x}.semi_join({r}, 'k')", "anti_join": "{x}.anti_join({r}, 'k')",
+    "map_identity": "{x}.map(lambda it: it)", "map_tag": "{x}.map(lambda it: {{**it, 't': 1}})",
     "modify": "{x}.modify(a=lambda it: 5)", "modify_if": "{x}.modify_if(lambda it: it['k'] == 1, a=lambda it: 6)",
     "modify_if_nested": "{x}.modify_if(lambda it: isinstance(it.get('n'), Box) and len(it['n'].v) < 2, "
                         "n=lambda it: (it['n'].v.append(1), it['n'])[1])",
@@ -400,7 +407,10 @@ def step(w, ev):
     if kind == "U":
         model.use(i)
     elif kind == "D":
-        model.derive(i, items, fresh)
+        if op in MAPS and not (set(items) & set(me.items)):
+            model.unrelated(i, items, fresh)   # own item objects: a new list that is nobody's descendant
+        else:
+            model.derive(i, items, fresh)
     elif kind == "E":
         model.edit(i, items, fresh, op=op, right=right)
     else:
@@ -433,7 +443,7 @@ def events_for(model, kmax):
     for i in range(m):
         mem = model.members[i]
         n = len(mem.items)
-        for op in SIMPLE_D:
+        for op in SIMPLE_D + MAPS:
             creating.append(("D", i, op))
         for k in (1, 2):
             if k > 1 and k > n:
